@@ -34,21 +34,26 @@ CHECK = {
     "suites": [suite("schedules", "c05", 800, 8000, stdin=True, timeout={"quick": 600, "thorough": 2400})],
     "extra": [_recheck],
     "gen": [{"pkg": "extract_c05", "out": "lean/ClusterVerif/Gen/C05.lean"}],
-    "lean_sources": ["ClusterVerif/Model/C05Source.lean", "ClusterVerif/Gen/C05.lean", "ClusterVerif/Model/C05.lean", "ClusterVerif/Spec/C05.lean", "ClusterVerif/Lemmas/C05.lean"],
+    "lean_sources": ["ClusterVerif/Model/C05Source.lean", "ClusterVerif/Gen/C05.lean", "ClusterVerif/Model/C05.lean", "ClusterVerif/Model/C05R.lean", "ClusterVerif/Spec/C05.lean", "ClusterVerif/Lemmas/C05.lean", "ClusterVerif/Lemmas/C05R.lean"],
     "rule": "gated schedules on the real stateless tracker: 0-40 scripted actions (track / untrack / recover / recoverAll, daemon applies / answers nil / "
             "answers an error for a parked call — the oldest of the cid or specifically its Pin / Unpin call —, daemon loses a pin, an answer racing with an instruction) over 3-4 CIDs with local / everywhere / "
             "cluster-dag / remote / remote-without-allocations / meta pins, recursive and direct, 3 option variants; queue size 1-3, 1-3 pin workers; "
+            "daemon read failures (F:1 / F:0: PinLsCid and PinLs answer an error — Status = cluster_error, StatusAll empty, RecoverAll must report it); a RecoverAll that "
+            "overlaps later instructions (G = it reads the pinset now, Rs = the rest of it runs on that listing); "
             "six generator profiles (mixed, queue pressure, churn on one cid, faulty daemon, recover rounds, noise) and a corpus of boundary schedules; "
             "one case = one schedule with the observation (Status per cid, StatusAll, daemon pin table with modes, shared pinset, parked calls, returned "
             "errors) at the stable point after every action; non-trivial = the schedule contains an instruction; distinct by case line",
     "trusted_base": ["gated fake IPFS daemon behind an in-process gorpc IPFSConnector service (harness/c05): Pin/Unpin park until scripted, PinLsCid/PinLs answer "
-                     "from the pin table for the asked mode like ipfshttp does; a call whose context is cancelled leaves without effect",
+                     "from the pin table for the asked mode like ipfshttp does (or an error while a scripted read fault is on); a call whose context is cancelled leaves without effect",
+                     "overlapping RecoverAll: the harness's getState hands the RecoverAll call the pinset listing taken at action G (as if its goroutine had been descheduled right after st.List)",
                      "shared pinset = real dsstate over an in-memory datastore, updated by the harness before Track/Untrack (as the consensus component does)",
                      "stable-point detection: every other goroutine blocked (runtime.Stack) and daemon counters unchanged for 3 polls"],
     "assumptions": ["a request cancelled by the tracker never takes effect at the daemon afterwards (the model disables the effect step of a cancelled call)",
                     "every Go action on the operation table / an operation is atomic (they are mutex-protected), so the interleavings of goroutines are the "
                     "interleavings of the model's steps; answers racing with instructions are exercised by the race actions",
-                    "instructions reach the tracker one at a time, after the shared pinset was updated (consensus applies the log sequentially)",
+                    "Track / Untrack reach the tracker one at a time, after the shared pinset was updated (consensus applies the log sequentially, synchronously since 2ba6875); "
+                    "Recover / RecoverAll may overlap them: modelled (EvC, recoverAllR with arbitrary activity in between), the invariant then FAILS (concurrent_recover_untrack_breaks, "
+                    "recoverAll_stale_listing_breaks; known finding K-C05-overlap); the positive theorems about RecoverAll assume only worker / daemon activity between its entries",
                     "Go scheduler fairness: a runnable worker eventually runs (stable points are reached)"],
 }
 META = {
@@ -56,7 +61,13 @@ META = {
             "recover with worker steps, daemon effects, nil / error / cancelled answers and lost pins; any queue size and worker count): a 21-conjunct invariant is "
             "preserved by every step; in every reachable quiescent state every CID's daemon pin matches the shared pinset (recorded mode / absent / best-effort for "
             "moved pins) or its status is an error status; from a quiescent state a recover round with healthy IPFS ends with the daemon matching for every CID, the "
-            "re-issued pin being the recorded one; an instruction refused for a full queue returns ErrFullQueue and leaves an error status. The model is tied to the "
+            "re-issued pin being the recorded one; an instruction refused for a full queue returns ErrFullQueue and leaves an error status. Round 7: RecoverAll / Recover as the code runs them (status listing "
+            "snapshot, the switch of recoverWithPinInfo as a function of the status, worker and daemon activity between the entries, daemon read failures): every listed cid whose status calls for "
+            "a repair gets a new operation of the right type carrying the recorded pin (recoverAll_covers), healthy cids get none (recover_skips_healthy), a healthy round heals "
+            "(recoverAllR_heals), a failed listing recovers nothing and must be reported (recoverAll_lsErr; fixed in /repo aa42f84); for EVERY schedule of blocks of events every observation "
+            "point satisfies the first clause as the driver evaluates it (model_trace_match_or_error); instructions in two steps interleaved with each other: harmless for Track/Untrack sends, "
+            "but a Recover / RecoverAll acting on a status read before a concurrent Untrack re-pins a removed cid (proved witness + replay on the real tracker, known finding); Shutdown cancels every "
+            "operation and no completion writes afterwards. The model is tied to the "
             "code by running thousands of scripted schedules on the real tracker against a gated fake daemon and comparing every stable-point observation with the "
             "model, and the Lean property clauses are evaluated on the implementation's own observations.",
     "note": "Trusted: Lean kernel, hand-written model/spec, the gated daemon and stable-point detection of the harness. The suspected defect 'a re-track with another mode "
